@@ -157,13 +157,15 @@ Example C15_example_passes :
   length_check [(lit "00:00:02.002", repeat 97 32 ++ [10] ++ repeat 98 32)] = None.
 Proof. vm_compute. reflexivity. Qed.
 
-(* ---- wave 7: the order clause for the layout pycaption's own SCCWriter produces (Erase-Displayed-Memory inside the load
+(* ---- wave 7 (renamed after the audit: this is NOT the order clause - inside load_wf no row is over-long, so the statement is
+   only "no order of the rows makes the reader raise"; partial: hypotheses positive / after_show / expected_with = Ok / wseg_clock):
+   the layout pycaption's own SCCWriter produces (Erase-Displayed-Memory inside the load
    line before its End-Of-Caption, rows incl. the indent-0 form of the preamble code): inside the domain of the pop-on
    refinement no order of the rows makes the reader raise; one hypothesis set serves both orders (the EDM and EOC words sit
    at the same indices). tcE / tcL: timecodes denoting the instants of the line's EDM word / of tc + (1 | 2) frames
    (they exist for rendered timecodes: C05_winline_clock) ------------------------------------------------------------- *)
 From PV Require Import spec.SpecSccTime spec.SpecScc05Inline proofs.SccPoponFacts proofs.SccPoponStage6 proofs.SccPoponStage9 proofs.SccInlineEdmFacts proofs.SccInlineCorFacts.
-Theorem C15_popon_row_order_free_inline : forall d off tc tcE tcL tc2 l l' evs spans, Permutation l l' -> load_wf l = true ->
+Theorem C15_popon_no_raise_any_order_inline_partial : forall d off tc tcE tcL tc2 l l' evs spans, Permutation l l' -> load_wf l = true ->
   wseg_clock d off (WInline tc tcE tcL l) ->
   res_map (pseg_event d off) [PClear tcE; PLoad tcL l; PClear tc2] = Ok evs -> positive evs -> after_show None evs ->
   expected_with join_threshold evs = Ok spans ->
@@ -173,8 +175,8 @@ Theorem C15_popon_row_order_free_inline : forall d off tc tcE tcL tc2 l l' evs s
     ok_c05 (mkProg d [l]) (Ok (map observe caps)) = true /\
     ok_c05 (mkProg d [l']) (Ok (map observe caps')) = true.
 Proof. exact popon_row_order_free_inline. Qed.
-Print Assumptions C15_popon_row_order_free_inline.
-Example C15_popon_row_order_free_inline_instance :
+Print Assumptions C15_popon_no_raise_any_order_inline_partial.
+Example C15_popon_no_raise_any_order_inline_instance :
   exists caps caps',
     read 0 [(lit "00:00:01:00", emit_load_w true ordw_a); (lit "00:00:05:00", emit_clear true)] = ROk caps /\
     read 0 [(lit "00:00:01:00", emit_load_w true ordw_b); (lit "00:00:05:00", emit_clear true)] = ROk caps' /\
